@@ -45,6 +45,51 @@ def lensMftBackward {K C : Type} [Mul K] [Neg K] [Div K] [Zero C] [One C] [Add C
     (cj : C → C) (Nx Ny Nu Nv : Nat) (x y X Y : Nat → K) (lf : K) (wOut : Weights C) (field : Nat → C) : Nat → C :=
   mftBackward T cj Nx Ny Nu Nv x y (fun k => X k / lf) (fun k => Y k / lf) wOut field
 
+/-! ## the pipeline, scalar-polymorphic: run at `Rat`/`PSum` by the driver, proved at `ℝ`/`ℂ` -/
+
+/-- one axis of a regular grid: `n` points `x_j = z + j·δ` -/
+structure Ax (K : Type) where
+  n : Nat
+  δ : K
+  z : K
+
+section poly
+variable {K C : Type} [Add K] [Sub K] [Mul K] [Neg K] [Div K] [One K] [NatCast K] [IntCast K]
+  [Zero C] [One C] [Add C] [Mul C] [Inv C] [NatCast C]
+
+/-- coordinate `j` of the axis -/
+def Ax.x (a : Ax K) (j : Nat) : K := regCoord a.z a.δ j
+
+/-- `lensAxisCfg` for pupil axis `p`, focal axis `F`; the FFT's per-axis weight is the pupil spacing -/
+def lensCfg (unit : K) (ofK : K → C) (p F : Ax K) (lf : K) (M : Nat) (emu : Bool) : Cfg K C :=
+  lensAxisCfg unit p.n p.δ p.z F.n F.δ F.z lf M (ofK p.δ) emu
+
+/-- **`FraunhoferPropagator.forward` on a 2-D field** (zero outside the pupil array) through the transform of
+method `m` that `make_fourier_transform` returned: `ft.forward(E) · norm_factor`.
+`T` character in turns, `E` character in `unit`s (`unit = 2π`: radians), `ofK` the embedding of real numbers,
+`My Mx` the padded sizes of `get_fft_parameters` (FFT only), `lf = λ f`.
+(`naive` is never selected for two regular Cartesian grids — `lensMethod_ne_naive`.) -/
+def lensForward (T E : K → C) (unit : K) (ofK : K → C) (norm : C) (m : Method) (emu : Bool)
+    (py px Fy Fx : Ax K) (lf : K) (My Mx : Nat) (field : Nat → Nat → C) (ky kx : Nat) : C :=
+  match m with
+  | .fft => fastForward2 T E (lensCfg unit ofK py Fy lf My emu) (lensCfg unit ofK px Fx lf Mx emu) field ky kx * norm
+  | .mft => lensMftForward T px.n py.n Fx.n Fy.n px.x py.x Fx.x Fy.x lf (.scalar (ofK (py.δ * px.δ)))
+      (fun i => field (i / px.n) (i % px.n)) (ky * Fx.n + kx) * norm
+  | .naive => 0
+
+/-- **`FraunhoferPropagator.backward`**: `ft.backward(E) / norm_factor`.  The MFT holds
+`weights_output = uv.weights/(2π)² = |1/lf|²·|Δy|·|Δx|` (`absK` = absolute value). -/
+def lensBackward (T E : K → C) (cj : C → C) (unit : K) (ofK : K → C) (absK : K → K) (norm : C) (m : Method)
+    (emu : Bool) (py px Fy Fx : Ax K) (lf : K) (My Mx : Nat) (field : Nat → Nat → C) (jy jx : Nat) : C :=
+  match m with
+  | .fft => fastBackward2 T E (lensCfg unit ofK py Fy lf My emu) (lensCfg unit ofK px Fx lf Mx emu) field jy jx * norm⁻¹
+  | .mft => lensMftBackward T cj px.n py.n Fx.n Fy.n px.x py.x Fx.x Fy.x lf
+      (.scalar (ofK ((1 / lf) * (1 / lf) * (absK Fy.δ * absK Fx.δ))))
+      (fun i => field (i / Fx.n) (i % Fx.n)) (jy * px.n + jx) * norm⁻¹
+  | .naive => 0
+
+end poly
+
 /-! ## the executable instance -/
 
 /-- `make_fourier_transform(pupil, uv)` for a regular Cartesian pupil grid and a regular Cartesian focal grid:
@@ -74,32 +119,22 @@ def lensImpulse (s : Setup) (focal : RegGrid) (dir : Dir) (cheaper emu : Bool) (
     Option (Method × PSum) :=
   match s.pupil.delta, s.pupil.dims, s.pupil.zero, focal.delta, focal.dims, focal.zero with
   | [δx, δy], [Nx, Ny], [zx, zy], [Δx, Δy], [Mox, Moy], [Zx, Zy] =>
-    let lf := lamf s
     let (jx, jy) := j
     let (kx, ky) := k
+    let py : Ax Rat := ⟨Ny, δy, zy⟩; let px : Ax Rat := ⟨Nx, δx, zx⟩
+    let Fy : Ax Rat := ⟨Moy, Δy, Zy⟩; let Fx : Ax Rat := ⟨Mox, Δx, Zx⟩
     match lensMethod s focal cheaper with
-    | some .fft =>
-      match (classify s focal).2 with
-      | [Mx, My] =>
-        let gy : RCfg := lensAxisCfg 1 Ny δy zy Moy Δy Zy lf My (PSum.ofRat δy) emu
-        let gx : RCfg := lensAxisCfg 1 Nx δx zx Mox Δx Zx lf Mx (PSum.ofRat δx) emu
-        match dir with
-        | .fwd => some (.fft, fastForward2 PSum.turns PSum.turns gy gx (impulse2 jy jx) ky kx * normPSum s)
-        | .bwd => some (.fft, fastBackward2 PSum.turns PSum.turns gy gx (impulse2 ky kx) jy jx * (normPSum s)⁻¹)
-      | _ => none
-    | some .mft =>
-      let x := regCoord zx δx; let y := regCoord zy δy
-      let X := regCoord Zx Δx; let Y := regCoord Zy Δy
+    | some m =>
+      -- padded sizes of `get_fft_parameters` (x first, as `dims`); only the FFT uses them
+      let (Mx, My) := match (classify s focal).2 with
+        | [Mx, My] => (Mx, My)
+        | _ => (0, 0)
       match dir with
-      | .fwd =>
-        some (.mft, lensMftForward PSum.turns Nx Ny Mox Moy x y X Y lf (.scalar (PSum.ofRat (δy * δx)))
-          (PSum.impulse (jy * Nx + jx)) (ky * Mox + kx) * normPSum s)
-      | .bwd =>
-        -- weights_output = uv.weights/(2π)² = |1/lf|²·Δy·Δx
-        some (.mft, lensMftBackward PSum.turns PSum.conj Nx Ny Mox Moy x y X Y lf
-          (.scalar (PSum.ofRat ((1 / lf) * (1 / lf) * (ratAbs Δy * ratAbs Δx))))
-          (PSum.impulse (ky * Mox + kx)) (jy * Nx + jx) * (normPSum s)⁻¹)
-    | _ => none
+      | .fwd => some (m, lensForward PSum.turns PSum.turns 1 PSum.ofRat (normPSum s) m emu py px Fy Fx (lamf s) My Mx
+          (impulse2 jy jx) ky kx)
+      | .bwd => some (m, lensBackward PSum.turns PSum.turns PSum.conj 1 PSum.ofRat ratAbs (normPSum s) m emu py px Fy Fx
+          (lamf s) My Mx (impulse2 ky kx) jy jx)
+    | none => none
   | _, _, _, _, _, _ => none
 
 /-- Forward pipeline for a separated, non-regular Cartesian focal grid with coordinate lists `X`, `Y`
